@@ -3,11 +3,71 @@
 import json, os
 V = os.path.dirname(os.path.dirname(os.path.abspath(__file__)))
 CHECKS = {
+ "C01": dict(
+  technique="bounded-exhaustive single-cell enumeration + rapid random composition; round-trip oracle under the stated JSON normal form (reflection deep diff keyed by cell)",
+  text="Generated-input search with a round-trip oracle: every struct type x field x admissible shape is enumerated completely at depth 1 through both entry pairs, every-field-set values per type, and random nested compositions; a reflection-driven deep diff under exactly the normal form the statement grants reports per-cell differences. Exhaustive only for the depth-1 cells; nesting and interactions are sampled.",
+  note="Writer and reader check each other: a paired mistake (same wrong term on both sides) is invisible here and is C02/C05's job. Durations are whole seconds below 27 days (xsd dependency), floats n/64.",
+  ref="DESIGN.md section 4, C01"),
+ "C03": dict(
+  technique="bounded-exhaustive single-cell enumeration + rapid random composition; gob round-trip oracle (three entry pairs) under the gob normal form",
+  text="Same three layers as C01 through GobEncode/GobDecode (package and per type) and MarshalBinary/UnmarshalBinary, with nanosecond instants in foreign zones, negative numbers and top-level links and lists; the diff grants only unset==empty and pointer==value.",
+  note="Round trip only: encoder and decoder are checked against each other; encoding/gob itself is trusted.",
+  ref="DESIGN.md section 4, C03"),
+ "C07": dict(
+  technique="exhaustive enumeration of type name x entry point x hook configuration against a hand-written ground-truth table of the ActivityStreams vocabulary",
+  text="The finite domain is enumerated completely (every vocabulary name, generic names, empty and foreign names x registry/JSON top/JSON nested item/JSON nested list/gob top/gob nested x hooks unset/set); oracle is a ground-truth table taken from the specification, plus marker properties that must arrive.",
+  note="The ground-truth table (name -> family -> Go type) is hand-written from the AS2 vocabulary; gob cells encode with the library's own encoder (no independent gob writer exists).",
+  ref="DESIGN.md section 4, C07"),
+ "C09": dict(
+  technique="rapid property tests of algebraic laws (reflexivity, nil laws, sensitivity under single-property mutation of a deep copy) + exhaustive nil-pair and single-cell layers; per-call watchdog",
+  text="ItemsEqual is exercised on every single-cell value, every everything-set value and thousands of random values (links, id-less objects, multi-language text, lists, value forms, IRIs): x==x, nil-likes equal each other and never a real item in either order, a deep copy differing in id/type/one named property is unequal in both orders, no panic, returns within a watchdog.",
+  note="Sensitivity is asserted only for the properties the statement names and for identity-bearing replacement values of the same shape.",
+  ref="DESIGN.md section 4, C09"),
+ "C10": dict(
+  technique="bounded-exhaustive enumeration of small addressee lists + rapid random assignments against a reference first-mention scan (model-based oracle)",
+  text="All pairs of lists of length <= 3 over a 4-entry alphabet on every pair of to/cc/bto/bcc for Object, Activity and Block, then random assignments over all five properties (+actor), all 13 types, variants of one id, nil entries; the returned list and the four lists after the call are compared with a reference scan written from the statement.",
+  note="Equivalence of addressees is decided by the reference IRI normaliser ignoring scheme; audience after the call is asserted only for the Block clause.",
+  ref="DESIGN.md section 4, C10"),
+ "C11": dict(
+  technique="enumeration of type x position x shape x depth + rapid random planting; reference walk oracle on the Go value, on independently parsed MarshalJSON output, and bit-exact snapshot diff for everything else",
+  text="Private recipients are planted on and off the walked properties at depth 1..3; after Clean() a reference walk (written from the statement) finds none on the Go value nor in the JSON parsed by encoding/json, and a deep snapshot shows every other byte unchanged (decoys keep theirs).",
+  note="Struct values embedded by value are off the walk as the statement says; JSON validity itself is C02's subject.",
+  ref="DESIGN.md section 4, C11"),
+ "C13": dict(
+  technique="model-based testing: bounded-exhaustive histories + rapid random histories against a reference insertion-ordered set",
+  text="Every history up to the length bound over a 3-item pool for each of the six containers, then random histories up to 40/100 steps over a 6-item mixed-shape pool; after every step Count, Collection order and Contains of every pool item are compared with a reference ordered set.",
+  note="Items of the pool have pairwise non-equivalent ids as the statement requires; Remove goes through ToItemCollection(container) and is not offered for IRIs.",
+  ref="DESIGN.md section 4, C13"),
  "C14": dict(
   technique="bounded-exhaustive grid + rapid property tests against a reference IRI normaliser (differential oracle), reflexivity/symmetry laws on arbitrary strings",
   text="Generated-input search: all ordered pairs of a 5400-IRI grid (thorough; a 150-row slice in quick) and random URL/mutation pairs are compared with an independent normaliser, which implies reflexivity, symmetry and transitivity on everything explored; arbitrary strings are checked for reflexivity and symmetry; IRIs.Contains against exists-Equals. Sampling beyond the grid does not prove absence.",
   note="Trusts net/url (used by both sides) and the reference normaliser written from the property statement; query strings are kept in one letter case as the property's domain says.",
   ref="DESIGN.md section 4, C14"),
+ "C15": dict(
+  technique="enumeration of owner IRIs x collection names + rapid random owners; round-trip and reference-normaliser oracles",
+  text="~600 structured owner IRIs (ports, nested paths, trailing slashes, percent-escapes, collection-named segments) x 8 names plus random owners: Split(IRIf) and OfActor(IRI) round trips up to the reference normaliser, ValidCollectionIRI both ways, and the collection helper on objects/actors with and without explicit properties.",
+  note="Owners ending in a collection name are generated but only the positive laws are asserted on them.",
+  ref="DESIGN.md section 4, C15"),
+ "C16": dict(
+  technique="enumeration of position x shape and of all short lists + rapid random values; reference flattening (model) with bit-exact diff of all other properties, invented-IRI check, idempotence",
+  text="Every flattened position x 10 shapes through FlattenProperties and the typed helpers, all lists of length <= 4 over 5 entry kinds in every addressee property and attributedTo, random values with decoys: result equals a deep copy with exactly the embedded non-collection objects that have an id replaced by their id, nothing else changed, no new IRI, flatten twice == once.",
+  note="Repeated mentions in lists may or may not be dropped (both accepted); embedded collections are not placed in flattened positions.",
+  ref="DESIGN.md section 4, C16"),
+ "C17": dict(
+  technique="exhaustive triples over an instant lattice + rapid random items; strict-weak-order laws and agreement with a reference comparator, sort oracle",
+  text="All 54 872 ordered triples over 36 objects (published x updated lattice incl. zero, equal instants in different zones) + nil + typed nil are checked for irreflexivity, asymmetry, transitivity, transitive incomparability and agreement with the comparator written from the statement; random items of all 13 object-like types in pointer/value form are also sorted and compared with the reference order.",
+  note="Links and bare IRIs are outside the domain as the statement says.",
+  ref="DESIGN.md section 4, C17"),
+ "C18": dict(
+  technique="enumeration of type x field x {only-to, only-from, both} and of the refusal matrix + rapid random pairs; field-wise merge-rule oracle with bit-exact snapshots of both arguments",
+  text="For Object, Actor and the four collection types every field is merged in the three patterns, the required refusals are enumerated, and random pairs with independent property subsets are merged: after in {before, from}, set-in-to/unset-in-from kept, listed properties taken from `from`, id/type taken, `from` bit-identical, refusals leave `to` bit-identical.",
+  note="Pairs for which the statement fixes no outcome (empty-typed `to`, foreign `from`) are generated for never-panics and from-unchanged only.",
+  ref="DESIGN.md section 4, C18"),
+ "C19": dict(
+  technique="model-based testing: exhaustive Set/Append/Add histories and exhaustive equality pairs + rapid random histories against a reference ordered map",
+  text="All histories up to length 4 (5 in thorough) over 3 tags x 2 texts and random histories up to 30 steps: Count, First, tag order and Get(tag) after every step equal a reference list of entries; Equals on all ordered pairs of lists without repeated tags (length <= 3) iff same set of pairs.",
+  note="Only the observables the statement names are compared (entries behind the first one with the same tag are not observable through Get).",
+  ref="DESIGN.md section 4, C19"),
 }
 props = [json.loads(l) for l in open(os.path.join(V, "properties.jsonl"))]
 checks, na = [], []
